@@ -355,7 +355,7 @@ SETERR_EFFECT = [
 ]
 
 contract(F, 'geterr', tier='P', props=P, types={}, ghost=GHOST_MSG, requires=M_INV, assumes=M_ASSUME,
-    returns=None,
+    returns='Dict[Str,Str]',
     ensures=["same_dict(result, EP._state)", "result is not EP._state", "same_dict(EP._state, old(EP._state))"],
     modifies=[])
 
